@@ -51,6 +51,13 @@ func URLContainsDoubleDotSegment(url string) bool {
 
 var urlDoubleDotSegmentPattern = regexp.MustCompile(`(?i)(?:\.|%2e)(?:\.|%2e)`)
 
+// URLDoubleDotSegmentCount returns the number of non-overlapping occurrences of the
+// double dot-segment "..", in its percent-encoded or unencoded form, in the given URL
+// or URL substring.
+func URLDoubleDotSegmentCount(url string) int {
+	return len(urlDoubleDotSegmentPattern.FindAllStringIndex(url, -1))
+}
+
 // QueryEscapeURL produces an output that can be embedded in a URL query.
 // The output can be embedded in an HTML attribute without further escaping.
 func QueryEscapeURL(args ...interface{}) string {
